@@ -94,7 +94,7 @@ Acts ==
 \cup [a : {"hint_object"}, object : ORefs, hints : {<<Hint("h1", VStr("nv")), Hint("h2", VBool(TRUE))>>}]
 \cup [a : {"schema_set_identifier"}, pkg : {"p", "r"}, id : {"ID"}]
 \cup [a : {"schema_set_entry_point"}, pkg : {"p", "q", "r"}, entry : {"Bar"}]
-\cup [a : {"prefix_objects_names"}, prefix : {"Pre", ""}]
+\cup [a : {"prefix_objects_names"}, prefix : {"Pre", "", "Fo", "sp"}]   \* "Fo"/"sp": prefixes OF existing object names
 \cup [a : {"append_comment_objects"}, comment : {"cmt"}]
 \cup [a : {"unspec"}]
 \cup [a : {"allowed_objects"}, objects : {<<r>> : r \in ORefs} \cup {<<ObjRef("p", "Foo"), ObjRef("q", "Foo")>>}]
